@@ -269,6 +269,27 @@ def ctor_block(_b):
             obs.append(static_ob(f"{base}/fit.ranges_are_min_max_of_the_fitted_points_and_all_points_are_fitted/table|branch={branch}", ok,
                                  str({'ranges': (f.get('pressure_range'), f.get('loading_range')), 'fitted': rec.get('fit', (None, None))[:2]})[:300], backend='trace',
                                  replay={'kind': 'c12.ranges'}))
+        # from_pointisotherm / model_iso: exactly the points the isotherm marks as the requested branch are fitted, whatever a
+        # pressure-based guess would say (marks given by the user: an adsorption point measured just below the previous
+        # pressure; a desorption-only isotherm stored with increasing pressure)
+        pA = [0.1, 0.2, 0.4, 0.7, 0.65, 0.5, 0.3]
+        lA = [1.0, 2.5, 3.0, 4.5, 4.6, 4.4, 3.9]
+        for tag, marks, branch in (('ads_point_after_the_maximum', [0, 0, 0, 0, 0, 1, 1], 'ads'), ('ads_point_after_the_maximum', [0, 0, 0, 0, 0, 1, 1], 'des'),
+                                   ('des_only_increasing_pressure', [1] * 7, 'des')):
+            pp, ll = (pA, lA) if tag.startswith('ads') else (sorted(pA), sorted(lA))
+            iso = pygaps.PointIsotherm(pressure=pp, loading=ll, branch=marks, **meta)
+            want_p = [a for a, m_ in zip(pp, marks) if m_ == (0 if branch == 'ads' else 1)]
+            want_l = [a for a, m_ in zip(ll, marks) if m_ == (0 if branch == 'ads' else 1)]
+            rec.clear()
+            try:
+                MI.ModelIsotherm.from_pointisotherm(iso, model='Langmuir', branch=branch)
+                err = ''
+            except Exception as exc:
+                err = f"{type(exc).__name__}: {exc}"[:120]
+            got = rec.get('fit', ([], []))
+            ok = not err and sorted(got[0]) == sorted(want_p) and sorted(got[1]) == sorted(want_l)
+            obs.append(static_ob(f"{base}/fit.from_pointisotherm_fits_the_points_marked_as_the_branch/{tag}|branch={branch}", ok,
+                                 err or str({'fitted': got[:2], 'marked': (want_p, want_l)})[:300], backend='trace', replay={'kind': 'c12.branch_marks'}))
     finally:
         MI.get_isotherm_model = real
     return obs
